@@ -123,6 +123,10 @@ func (c *Ctx) PART(rule string) []report.Obligation {
 				continue
 			}
 			skip := skipsBlock(f, l.rng.Block())
+			if skip == "not inside a loop" {
+				// interchanged nesting: for every remaining service, a loop over the names strips each of them
+				skip = c.namesInsideServices(f, l)
+			}
 			// ... and the names iterated are the names given (the parameter itself, not a filtered copy)
 			for b := range l.region {
 				for _, in := range b.Instrs {
@@ -359,6 +363,86 @@ var _ = report.Info
 
 // skipsBlock: b lies in a loop; it returns "" when every path from the loop header back to the header passes
 // through b, else a description of where the loop can go round without it. "not in a loop" when b is in none.
+// namesInsideServices: the range l over Services is the outer loop. Every iteration of it runs a loop whose
+// every iteration reaches delete(DependsOn, name) - or skips it only because the entry is absent.
+func (c *Ctx) namesInsideServices(f *ssa.Function, l *mapLoop) string {
+	var del ssa.Instruction
+	for b := range l.region {
+		for _, in := range b.Instrs {
+			if ci, ok := in.(ssa.CallInstruction); ok {
+				if bi, ok := ci.Common().Value.(*ssa.Builtin); ok && bi.Name() == "delete" && loadedField(ci.Common().Args[0]) == "DependsOn" {
+					del = in
+				}
+			}
+		}
+	}
+	if del == nil {
+		return "not inside a loop"
+	}
+	h2, body2 := naturalLoop(f, del.Block())
+	if h2 == nil || h2 == l.head || !l.region[h2] {
+		return "not inside a loop"
+	}
+	// the inner loop is entered on every iteration of the range over Services
+	outer := map[*ssa.BasicBlock]bool{l.head: true}
+	for b := range l.region {
+		outer[b] = true
+	}
+	if sk := loopSkip(l.head, outer, h2); sk != nil {
+		return "the loop over the names can be skipped for a service, " + describeSkip(f, sk)
+	}
+	// every iteration of the inner loop deletes, unless the entry is absent
+	if sk := loopSkip(h2, body2, del.Block()); sk != nil {
+		absent := false
+		if iff, ok := sk.Instrs[len(sk.Instrs)-1].(*ssa.If); ok {
+			if ex, ok := iff.Cond.(*ssa.Extract); ok && ex.Index == 1 {
+				if lk, ok := ex.Tuple.(*ssa.Lookup); ok && loadedField(lk.X) == "DependsOn" {
+					absent = true
+				}
+			}
+		}
+		if !absent && sk != h2 {
+			return "a name can be passed over, " + describeSkip(f, sk)
+		}
+	}
+	return ""
+}
+
+func describeSkip(fn *ssa.Function, skip *ssa.BasicBlock) string {
+	line := 0
+	for i := len(skip.Instrs) - 1; i >= 0 && line == 0; i-- {
+		line = fn.Prog.Fset.Position(skip.Instrs[i].Pos()).Line
+	}
+	return "through the block ending at line " + fmt.Sprint(line)
+}
+
+// loopSkip: a block of the loop (h, body) from which the header is reached again without passing b.
+func loopSkip(h *ssa.BasicBlock, body map[*ssa.BasicBlock]bool, b *ssa.BasicBlock) *ssa.BasicBlock {
+	seen := map[*ssa.BasicBlock]bool{}
+	var skip *ssa.BasicBlock
+	var dfs func(x *ssa.BasicBlock)
+	dfs = func(x *ssa.BasicBlock) {
+		if skip != nil || seen[x] || !body[x] || x == b {
+			return
+		}
+		seen[x] = true
+		for _, s := range x.Succs {
+			if s == h {
+				skip = x
+				return
+			}
+			dfs(s)
+		}
+	}
+	for _, s := range h.Succs {
+		if s == h {
+			skip = h
+		}
+		dfs(s)
+	}
+	return skip
+}
+
 func skipsBlock(fn *ssa.Function, b *ssa.BasicBlock) string {
 	h, body := naturalLoop(fn, b)
 	if h == nil {
